@@ -283,6 +283,12 @@ pub fn execute(case: &RaceCase, schedule: &[u8]) -> Result<Executed, String> {
         v.sort();
     }
     let verify = verify_original(original, VerifyMode::Drop);
+    // without std a mock-induced panic raised through the ORIGINAL itself disables the original's verification
+    // (documented no_std behaviour: teardown cannot ask whether the thread is panicking): verdict unspecified
+    let verdict_unspecified = !cfg!(feature = "std") && {
+        let through_original = |t: usize| case.shared || (case.creator && t == 0);
+        run.results.iter().enumerate().any(|(t, outs)| through_original(t) && outs.iter().any(|r| r.is_err()))
+    };
     if case.kind == Kind::OrderedRejecting {
         // capacity of every tag = number of ordered positions that answer with it (walk the sequence in order)
         let mut cap_model = Model::new(false, &cl, &FACTS).map_err(|e| format!("HARNESS: model {e:?}"))?;
@@ -309,7 +315,7 @@ pub fn execute(case: &RaceCase, schedule: &[u8]) -> Result<Executed, String> {
             }
         }
         let any_panic = observed.values().flatten().any(|o| *o == O::MockPanic);
-        if any_panic && matches!(verify, VerifyObs::Silent) {
+        if any_panic && !verdict_unspecified && matches!(verify, VerifyObs::Silent) {
             return Err("a call was rejected, yet verification after join passed".into());
         }
         return Ok(Executed { decisions: run.decisions, switches: run.switches, trace_len: run.trace.len() });
@@ -318,6 +324,9 @@ pub fn execute(case: &RaceCase, schedule: &[u8]) -> Result<Executed, String> {
         return Err(format!(
             "responses handed out under this interleaving {observed:?} differ from positions 1..N {expected:?}"
         ));
+    }
+    if verdict_unspecified {
+        return Ok(Executed { decisions: run.decisions, switches: run.switches, trace_len: run.trace.len() });
     }
     // verdict after join = sequential verdict
     let seq_fails = !matches!(model.verify(), crate::model::Verdict::Silent) || !texts.is_empty();
